@@ -33,6 +33,7 @@ import (
 
 func init() {
 	execs["c09.trace"] = execC09
+	execs["c09.overlap"] = func(t *hx.Toks) string { return execC09x(t, true) }
 	gens["C09"] = genC09
 }
 
@@ -63,7 +64,17 @@ type c09Rig struct {
 	started    map[int64]bool
 	script     []int
 	nextStop   bool // a NextBackOff returned a duration the case cannot wait for
+	overlap    bool // c09.overlap: retries of an always-failing batch are parked until a later batch has run its Out
+	park       chan parkReq
+	okCh       chan int64
+	outDone    chan int64
 	giveUpWait chan struct{}
+}
+
+type parkReq struct {
+	seq     int64
+	attempt int
+	done    chan struct{}
 }
 
 func (r *c09Rig) tagOf(b uint64) (string, bool) {
@@ -120,7 +131,11 @@ func (r *c09Rig) trace(kind string, a, b uint64) {
 		if int64(b) == -1 { // backoff.Stop
 			stop = "1"
 		}
-		r.log.add(&tEntry{tok: "n", extra: fmt.Sprintf("%d %d %s", seq, a, stop)})
+		pause := uint64(0)
+		if stop == "0" {
+			pause = b // the pause NextBackOff asked for, in ns
+		}
+		r.log.add(&tEntry{tok: "n", extra: fmt.Sprintf("%d %d %s %d", seq, a, stop, pause)})
 		if stop == "0" && time.Duration(b) > 10*time.Second {
 			// the case cannot sit through this pause: the observation ends here
 			r.mu.Lock()
@@ -206,6 +221,12 @@ func (r *c09Rig) gate(point string, a, b uint64) {
 				keep = "0"
 			}
 			r.log.add(&tEntry{tok: "d", k: int64(a), extra: keep})
+			if r.overlap {
+				select {
+				case r.outDone <- int64(a):
+				default:
+				}
+			}
 		}
 	}
 }
@@ -300,11 +321,35 @@ func (p *c09Main) send(_ *pipeline.WorkerData, batch *pipeline.Batch) error {
 		r.log.mu.Unlock()
 	}
 	p.pause()
+	if r.overlap && fails >= 99 && n >= 1 {
+		// the pause of retry n is over: hold the retry until the scheduler has let a later batch run its Out
+		req := parkReq{seq: seq, attempt: n, done: make(chan struct{})}
+		select {
+		case r.park <- req:
+			select {
+			case <-req.done:
+			case <-time.After(3 * time.Second):
+			}
+		default:
+		}
+	}
 	if n < fails {
 		r.log.add(&tEntry{tok: "t", extra: fmt.Sprintf("%d 0", seq)})
+		if r.overlap && n == 0 && seq != 0 {
+			select { // a later batch has entered Out and made its first attempt
+			case r.okCh <- seq:
+			default:
+			}
+		}
 		return errors.New("scripted failure")
 	}
 	r.log.add(&tEntry{tok: "t", extra: fmt.Sprintf("%d 1", seq)})
+	if r.overlap {
+		select {
+		case r.okCh <- seq:
+		default:
+		}
+	}
 	return nil
 }
 
@@ -367,7 +412,9 @@ func (p *c09DQ) Out(ev *pipeline.Event) {
 	p.batcher.Add(ev)
 }
 
-func execC09(t *hx.Toks) string {
+func execC09(t *hx.Toks) string { return execC09x(t, false) }
+
+func execC09x(t *hx.Toks, overlap bool) string {
 	workers, count, nbytes, retry, retentionMs := t.Int(), t.Int(), t.Int(), t.Int(), t.Int()
 	dqmode, dqworkers, dqcount, adders := t.Int(), t.Int(), t.Int(), t.Int()
 	seed := t.Uint64()
@@ -404,7 +451,8 @@ func execC09(t *hx.Toks) string {
 	var rngMu sync.Mutex
 	log := newTLog()
 	rig := &c09Rig{log: log, evs: evs, curSeq: map[uint64]int64{}, curCB: map[uint64]*tEntry{}, attempt: map[int64]int{},
-		batches: map[int64]*pipeline.Batch{}, started: map[int64]bool{}, script: script, giveUpWait: make(chan struct{})}
+		batches: map[int64]*pipeline.Batch{}, started: map[int64]bool{}, script: script, giveUpWait: make(chan struct{}),
+		overlap: overlap, park: make(chan parkReq), okCh: make(chan int64, 64), outDone: make(chan int64, 64)}
 	mctl := metric.NewCtl("", prometheus.NewRegistry(), time.Minute, 0)
 	mainP := &c09Main{rig: rig,
 		opts: pipeline.BatcherOptions{PipelineName: "verif", OutputType: "c09main", Workers: workers, BatchSizeCount: count,
@@ -437,9 +485,69 @@ func execC09(t *hx.Toks) string {
 		PluginDefaultParams: pipeline.PluginDefaultParams{PipelineName: "verif", MetricCtl: mctl},
 		Controller:          rig, Router: router})
 
-	// adders feed the router's Out (round robin split of the events)
 	var wg sync.WaitGroup
-	for a := 0; a < adders; a++ {
+	if overlap {
+		// c09.overlap: batch 0 (count 1: one event per batch) keeps failing; each time one of its retries (attempt >= 2
+		// when the retry setting allows one, so that the pause intervals of the indices involved are disjoint) is
+		// parked in the send function, the next event is added: another worker takes that batch, enters Out (a
+		// per-call back-off is untouched by it, a shared one is rewound) and returns; then the retry is released.
+		// Logical order through the park points, no wall-clock measurement.
+		wg.Add(1)
+		caseOver := make(chan struct{})
+		defer close(caseOver)
+		var nextMu sync.Mutex
+		next := 0
+		addNext := func() bool {
+			nextMu.Lock()
+			if next >= len(specs) {
+				nextMu.Unlock()
+				return false
+			}
+			s := specs[next]
+			next++
+			nextMu.Unlock()
+			router.Out(mkEvent(s))
+			return true
+		}
+		go func() { // serves the park points for the whole case
+			later := 0
+			for {
+				select {
+				case req := <-rig.park:
+					minAttempt := 1
+					if retry >= 1 {
+						minAttempt = 2
+					}
+					if req.attempt >= minAttempt && later < workers-1 {
+						later++
+						if addNext() {
+							select {
+							case <-rig.okCh:
+							case <-time.After(500 * time.Millisecond):
+							}
+						}
+					}
+					close(req.done)
+				case <-caseOver:
+					return
+				}
+			}
+		}()
+		go func() {
+			defer wg.Done()
+			addNext()
+			select { // the remaining events follow when batch 0 is through (or cannot be waited for)
+			case <-rig.outDone:
+			case <-rig.giveUpWait:
+				return
+			case <-time.After(20 * time.Second):
+			}
+			for addNext() {
+			}
+		}()
+	}
+	// adders feed the router's Out (round robin split of the events)
+	for a := 0; a < adders && !overlap; a++ {
 		wg.Add(1)
 		go func(a int) {
 			defer wg.Done()
@@ -567,7 +675,11 @@ func execC09(t *hx.Toks) string {
 // ---------------------------------------------------------------- gen
 
 func c09Line(w *bufio.Writer, workers, count, nbytes, retry, retentionMs, dqmode, dqworkers, dqcount, adders int, seed uint64, evs []evSpec, script []int) {
-	fmt.Fprintf(w, "c09.trace %d %d %d %d %d %d %d %d %d %d %d", workers, count, nbytes, retry, retentionMs, dqmode, dqworkers, dqcount, adders, seed, len(evs))
+	c09Line2(w, "c09.trace", workers, count, nbytes, retry, retentionMs, dqmode, dqworkers, dqcount, adders, seed, evs, script)
+}
+
+func c09Line2(w *bufio.Writer, cmd string, workers, count, nbytes, retry, retentionMs, dqmode, dqworkers, dqcount, adders int, seed uint64, evs []evSpec, script []int) {
+	fmt.Fprintf(w, cmd+" %d %d %d %d %d %d %d %d %d %d %d", workers, count, nbytes, retry, retentionMs, dqmode, dqworkers, dqcount, adders, seed, len(evs))
 	for _, e := range evs {
 		fmt.Fprintf(w, " %d %d", e.size, e.kind)
 	}
@@ -624,6 +736,24 @@ func genC09(w *bufio.Writer, rng *hx.Rng, tier string) {
 			fmt.Fprintf(w, " %d", k)
 		}
 		w.WriteByte('\n')
+	}
+	// deterministic overlap of a retry sequence with later batches on other workers, and two batches failing at once
+	nover := 12
+	if tier == "thorough" {
+		nover = 120
+	}
+	for i := 0; i < nover; i++ {
+		workers := 2 + i%3
+		retry := 1 + i%3
+		script := []int{99, 0}
+		if i%4 == 3 {
+			script = []int{99, 99, 0, 0} // two batches failing concurrently
+		}
+		evs := make([]evSpec, workers+1+i%2) // regular events only: every batch goes through Out
+		for j := range evs {
+			evs[j] = evSpec{size: rng.Range(0, 30)}
+		}
+		c09Line2(w, "c09.overlap", workers, 1, 0, retry, 1+i%3, (i/3)%3, 1, 1, 1, rng.U64(), evs, script)
 	}
 	// the real elasticsearch output with a dead queue that blocks on its first call while later batches follow
 	nesdq := 14
